@@ -20,6 +20,9 @@ CONSTANTS
  CowIndex = FALSE
  InvAfterDel = FALSE
  NormKey = TRUE
+ TrustApplied = FALSE
+ PlainIds = {"n1"}
+ FeatFromPut = FALSE
  LockStyle = "global"
 INIT MInit
 NEXT MNext
